@@ -48,4 +48,3 @@ func checkC04(c *Ctx) {
 	c.runStoreTraces(c.pick(8, 60), traceGenOpts{Layout: true, MaxWidth: 60, Events: c.pick(700, 3000), Kinds: []string{"paged"},
 		Ops: []string{"Add", "Add", "Add", "Add", "Add", "Add", "Add", "Add", "AddWithCount", "AddBin", "CopyTo", "Clear", "Reweight", "Read"}}, "paginated stores, page layout")
 }
-
